@@ -314,6 +314,9 @@ class Const(Shape):
         return lambda j: lift_float(self.v)
 
     def describe(self):
+        import enum
+        if isinstance(self.v, enum.Enum):
+            return f'={self.v.name}'
         return f'={self.native("", None)}'
 
 
@@ -342,8 +345,6 @@ class Rec(Shape):
     def alternatives(self):
         keys = list(self.fields)
         alts = [self.fields[k].alternatives() for k in keys]
-        if all(len(a) == 1 for a in alts):
-            return [self]
         return [Rec(self.cls, **dict(zip(keys, combo))) for combo in itertools.product(*alts)]
 
     def fresh(self, ctx, name, inputs=False):
@@ -383,8 +384,6 @@ class Obj(Shape):
     def alternatives(self):
         keys = list(self.fields)
         alts = [self.fields[k].alternatives() for k in keys]
-        if all(len(a) == 1 for a in alts):
-            return [self]
         return [Obj(self.cls, frozen=self.frozen, **dict(zip(keys, combo))) for combo in itertools.product(*alts)]
 
     def fresh(self, ctx, name, inputs=False):
@@ -411,7 +410,18 @@ class Obj(Shape):
         return f'_mk({self.cls.__name__}, {{{args}}})'
 
     def describe(self):
-        return self.cls.__name__
+        cs = []
+        for k, v in self.fields.items():
+            if isinstance(v, Const):
+                if k == '_defined_units':
+                    cs.append(v.describe()[1:])
+                else:
+                    cs.append(f'{k}{v.describe()}')
+            elif isinstance(v, Obj):
+                d = v.describe()
+                if '(' in d:
+                    cs.append(f'{k}:{d[d.index("(") + 1:-1]}')
+        return self.cls.__name__ + (f'({",".join(cs)})' if cs else '')
 
 
 def Quantity(cls, unit=None, value=None, units=None):
@@ -477,8 +487,6 @@ class FixedList(Shape):
 
     def alternatives(self):
         alts = [e.alternatives() for e in self.elems]
-        if all(len(a) == 1 for a in alts):
-            return [self]
         return [FixedList(*combo, is_tuple=self.is_tuple) for combo in itertools.product(*alts)]
 
     def fresh(self, ctx, name, inputs=False):
@@ -508,8 +516,6 @@ class DictOf(Shape):
     def alternatives(self):
         keys = list(self.items)
         alts = [self.items[k].alternatives() for k in keys]
-        if all(len(a) == 1 for a in alts):
-            return [self]
         return [DictOf(**dict(zip(keys, combo))) for combo in itertools.product(*alts)]
 
     def fresh(self, ctx, name, inputs=False):
